@@ -64,6 +64,7 @@ class Group:
         self.table = table
         self.gid = gid
         self.ops = []       # impl cases (dicts for impl_pkt), each with a private key '_k' describing the kind
+        self.nomodel = False  # True: the declarations are outside the modelled language: implementation-only (oracle) group
 
     def blocks(self):
         return [dict(name=decl.cname(c), src=decl.py_class(c, pc)) for c, pc in sorted(self.table.items())]
@@ -122,8 +123,19 @@ def run_groups(groups, tag='g'):
                 ok = gres['defs'].get(decl.cname(c)) == 'ok'
                 records.append(dict(group=g.gid, kind='defined', c=c, outcome=gres['defs'].get(decl.cname(c))))
                 lines.append(f"CDefined {c} {'true' if ok else 'false'}")
+            if g.nomodel:
+                lines = []
             for op, o in zip(g.ops, gres['outcomes']):
                 c = op['_c']
+                if g.nomodel and op['op'] in ('derive', 'roundtrip'):
+                    if op['op'] == 'derive':
+                        for d in o.get('derived', []):
+                            records.append(dict(group=g.gid, kind='roundtrip', c=c, raw=bytes.fromhex(d['raw']), offset=d['offset'],
+                                                outcome=d['outcome'], variant=d.get('variant'), source=id(op),
+                                                source_value=op['_value'], source_raw=bytes.fromhex(o['packed']['ok'])))
+                    else:
+                        records.append(dict(group=g.gid, kind='roundtrip', c=c, raw=bytes.fromhex(op['raw']), offset=op['offset'], outcome=o))
+                    continue
                 if op['op'] == 'derive':
                     po = o['packed'] if 'derived' in o else o
                     records.append(dict(group=g.gid, kind='pack', c=c, value=op['_value'], outcome=po))
@@ -161,12 +173,18 @@ def run_groups(groups, tag='g'):
                 elif op['op'] == 'default':
                     records.append(dict(group=g.gid, kind='default', c=c, value=op['_value'], outcome=o))
                     lines.append(f"CDefault {decl.cq_value(op['_value'])} {cq_outcome(o)}")
+            if g.nomodel:
+                continue
             text.append(f"Definition T{g.gid} : list (cid * pclass) := {decl.cq_table(g.table)}.\n")
+            if g.nomodel:
+                for r in records[base:]:
+                    r['nomodel'] = True
+                continue
             lines = [l if l is not None else 'CDefined (-1) false' for l in lines]   # implementation-only operations: a case that always agrees keeps the indices aligned
             for k, part in enumerate(shard(lines, 120)):
                 text.append(f"Definition C{g.gid}_{k} : list pcase := [\n" + ";\n".join(part) + "\n].\n")
                 calls.append(f"check_group {'true' if host else 'false'} {base + 120 * k} T{g.gid} C{g.gid}_{k}")
-        text.append("Eval vm_compute in (" + " ++ ".join(calls) + ").\n")
+        text.append("Eval vm_compute in (" + (" ++ ".join(calls) if calls else "(@nil Z)") + ").\n")
         files.append((f"{tag}_{si}", "".join(text)))
     outs = coq_eval_files(files)
     bad = []
